@@ -20,6 +20,41 @@ from .c06 import get_interp
 ZB = "pysnark.zkinterface.backend"
 
 
+_MSG_WRITER = {"CircuitHeader": "write_circuit", "Witness": "write_witness", "ConstraintSystem": "write_constraints"}
+
+
+def _message_of(pr, m, e, depth=0):
+    """writer name (write_circuit / write_witness / write_constraints) of the message whose bytes the expression holds:
+         bytes(B.Output()) / B.Output()   with   Root.RootAddMessageType(B, Message.Message.T)   in the same function
+         a local bound once to such an expression, or to a call of a module function that returns one"""
+    if depth > 4:
+        return None
+    if isinstance(e, ast.Name):
+        defs = [a for a in ast.walk(pr.node) if isinstance(a, ast.Assign) and len(a.targets) == 1 and norm(a.targets[0]) == e.id]
+        if len(defs) != 1:
+            return None
+        return _message_of(pr, m, defs[0].value, depth + 1)
+    if isinstance(e, ast.Call) and norm(e.func) in ("bytes", "bytearray") and len(e.args) == 1:
+        return _message_of(pr, m, e.args[0], depth + 1)
+    if isinstance(e, ast.Call) and isinstance(e.func, ast.Attribute) and e.func.attr == "Output" and isinstance(e.func.value, ast.Name):
+        b = e.func.value.id
+        for scope in [pr] + [f for f in m.functions.values() if f is not pr]:
+            if not any(x is e for x in ast.walk(scope.node)):
+                continue
+            ts = [c for c in ast.walk(scope.node) if isinstance(c, ast.Call) and norm(c.func).endswith("RootAddMessageType") and len(c.args) == 2
+                  and norm(c.args[0]) == b]
+            if len(ts) == 1:
+                return _MSG_WRITER.get(norm(ts[0].args[1]).split(".")[-1])
+        return None
+    if isinstance(e, ast.Call) and isinstance(e.func, ast.Name) and not e.args and e.func.id in m.functions:
+        h = m.functions[e.func.id]
+        rets = [r for r in ast.walk(h.node) if isinstance(r, ast.Return) and r.value is not None
+                and next((p_ for p_ in parents(r) if isinstance(p_, (ast.FunctionDef, ast.Lambda))), None) is h.node]
+        kinds = {_message_of(h, m, r.value, depth + 1) for r in rets}
+        return kinds.pop() if len(kinds) == 1 else None
+    return None
+
+
 def enclosing_fors(node):
     return [p for p in parents(node) if isinstance(p, ast.For)]
 
@@ -333,6 +368,12 @@ def rule_messages(repo, rule):
                     seq[cur[1]].append(f)
                     if conds:
                         conditional.append((s, cur[1], f, " and ".join(conds)))
+                elif cur and f == "%s.write" % cur[0] and len(s.value.args) == 1 and _message_of(pr, m, s.value.args[0]) is not None:
+                    # f.write(<bytes of one message built beforehand>): which message it is follows from the builder it came from
+                    mt = _message_of(pr, m, s.value.args[0])
+                    seq[cur[1]].append(mt)
+                    if conds:
+                        conditional.append((s, cur[1], mt, " and ".join(conds)))
                 elif cur and f == "%s.close" % cur[0]:
                     cur = None
             elif isinstance(s, ast.If):
@@ -442,6 +483,16 @@ def rule_schema(repo, rule):
     enum = msgmod.classes["Message"].attrs if msgmod and "Message" in msgmod.classes else {}
     for fn, table in (("write_circuit", "CircuitHeader"), ("write_witness", "Witness"), ("write_constraints", "ConstraintSystem")):
         fi = repo.fn(ZB, fn)
+        if not any(isinstance(c, ast.Call) and norm(c.func).endswith("RootAddMessageType") for c in ast.walk(fi.node)):
+            # the writer may delegate the building to a function that returns the message's bytes: f.write(build_x())
+            # (one unconditional call without arguments: a builder called per chunk of the data, in a loop or with a slice, makes
+            # several messages - which the message-sequence rule does not know how to read - and is not accepted here)
+            for c in ast.walk(fi.node):
+                if isinstance(c, ast.Call) and isinstance(c.func, ast.Name) and c.func.id in m.functions and not c.args and not c.keywords \
+                        and not any(isinstance(p_, (ast.For, ast.While, ast.If, ast.ListComp, ast.GeneratorExp)) for p_ in parents(c)) and any(
+                        isinstance(x, ast.Call) and norm(x.func).endswith("RootAddMessageType") for x in ast.walk(m.functions[c.func.id].node)):
+                    fi = m.functions[c.func.id]
+                    break
         mt = [c for c in ast.walk(fi.node) if isinstance(c, ast.Call) and norm(c.func).endswith("RootAddMessageType")]
         mm = [c for c in ast.walk(fi.node) if isinstance(c, ast.Call) and norm(c.func).endswith("RootAddMessage")]
         where = fi.loc()
@@ -463,9 +514,10 @@ def rule_schema(repo, rule):
             rule.violation(fi.loc(mt[0]), fi.fq, term, "message type tag does not match the table stored in the Root (expected %s)"
                            % table, "schema/tag/%s" % fn)
         fin = [c for c in ast.walk(fi.node) if isinstance(c, ast.Call) and norm(c.func).endswith(".FinishSizePrefixed")]
-        wr = [c for c in ast.walk(fi.node) if isinstance(c, ast.Call) and norm(c.func) == "%s.write" % fi.params[0]]
-        if fin and wr:
-            rule.ok(fi.loc(fin[0]), fi.fq, "FinishSizePrefixed(root); %s.write(buf)" % fi.params[0])
+        wr = [c for c in ast.walk(fi.node) if isinstance(c, ast.Call) and fi.params and norm(c.func) == "%s.write" % fi.params[0]]
+        handed = [r for r in ast.walk(fi.node) if isinstance(r, ast.Return) and r.value is not None and ".Output()" in norm(r.value)]
+        if fin and (wr or (not fi.params and handed)):
+            rule.ok(fi.loc(fin[0]), fi.fq, "FinishSizePrefixed(root); %s" % ("%s.write(buf)" % fi.params[0] if wr else "the finished buffer is returned to the writer"))
         else:
             rule.violation(where, fi.fq, "finish=%d write=%d" % (len(fin), len(wr)), "message is not written size-prefixed",
                            "schema/prefix/%s" % fn)
